@@ -611,9 +611,13 @@ def r59(e: Engine, rep: Report):
     consts = common.class_constants(e, SENDER)
     n = 0
 
+    mod_globals = getattr(c.module, 'globals', {})
+
     def fold(x):
         if isinstance(x, ast.Constant) and isinstance(x.value, bytes):
             return x.value
+        if isinstance(x, ast.Name) and x.id in mod_globals:
+            return fold(mod_globals[x.id])
         if isinstance(x, ast.BinOp) and isinstance(x.op, ast.Add):
             a, b = fold(x.left), fold(x.right)
             return None if a is None or b is None else a + b
